@@ -159,7 +159,37 @@ def covered_events_removed(ctx, s):
             s.add("S-ORDER", fn, "covered-events-removed", cls, info["sp"], PROVED if ok else VIOLATION,
                   "after the marker is written, events of the address up to the request's created_at are removed" if ok else
                   "removal for the %s class is not (after the marker, under the class predicate, until = request created_at)" % cls, b)
-        # every path from the marker write to the next tag passes the class-appropriate removal or the 'other class' edge
+    # every path from the marker write to the next tag (or to Ok) passes a removal, or the edges on which the address's kind
+    # was found to be of neither removable class: recording the deletion and skipping the removal (because "it was done the
+    # first time") leaves events that the newer request covers retrievable
+    loops = an.cfg.natural_loops()
+    oks = [n for n, k_, v in s.return_kinds(fn) if k_ == "ok"]
+    rm_ok = []
+    for callee in ("pocket_db::Store::remove_replaceable", "pocket_db::Store::remove_parameterized_replaceable"):
+        for b, info in s.calls(fn, names={callee}):
+            rm_ok += s.ok_edges_of_call(fn, b) or [b]
+    not_cls = {}
+    for cls in ("is_replaceable", "is_parameterized_replaceable"):
+        not_cls[cls] = s.edges_where(fn, lambda f, cls=cls: f[0] == "false" and isinstance(f[1], tuple) and f[1][0] == "call" and
+                                     f[1][1].endswith("::" + cls))
+    for mb, minfo in mk:
+        starts = s.ok_edges_of_call(fn, mb) or [mb]
+        inner = [H for H, body in loops.items() if mb in body]
+        H = min(inner, key=lambda h: len(loops[h])) if inner else None
+        targets = set(oks) | ({H} if H is not None else set())
+        skipped = None
+        for cls in ("is_replaceable", "is_parameterized_replaceable"):
+            reach = s.reach(fn, starts, avoid=rm_ok + not_cls[cls])
+            if any(t in reach for t in targets):
+                skipped = cls
+        if not rm_ok:
+            continue
+        s.add("S-MUSTPASS", fn, "removal-follows-marker", "mark_naddr_deleted", minfo["sp"], PROVED if skipped is None else VIOLATION,
+              "once the address marker is written, the next tag (or Ok) is reached only through a removal or through finding the "
+              "kind in neither removable class" if skipped is None else
+              "after the address marker is written the handler can go on to the next tag (or succeed) without removing the "
+              "address's stored events and without having found its kind non-removable (%s never decided on that path): events "
+              "the accepted request covers stay retrievable" % skipped, mb)
     # e targets: a present target is removed before the id marker is written
     rb = s.calls(fn, names={"pocket_db::Store::remove_by_id"})
     md = s.calls(fn, names={"pocket_db::Lmdb::mark_deleted"})
